@@ -577,5 +577,9 @@ fn _close_upvalues<T>(vm: &mut Vm<T>, top: *const Value) -> ExecutionResult {
 
 pub fn close_upvalues<T>(vm: &mut Vm<T>) -> ExecutionResult {
     let top = vm.runtime_data.value_stack.top_location();
-    _close_upvalues(vm, top)
+    _close_upvalues(vm, top)?;
+    // the captured local goes out of scope: remove it like `Pop` does for plain locals, so that
+    // the locals below it are on top when it is their turn
+    vm.stack_pop();
+    Ok(())
 }
